@@ -47,6 +47,8 @@ def parse(log):
             ev.append((w[0], w[1], F(w[2])))
         elif w[0] == "failure":
             ev.append(("failure", w[1]))
+        elif w[0] == "params":
+            ev.append(("params", {x.split("=")[0]: x.split("=")[1] for x in w[1:]}))
         elif w[0] in ("solved", "unsolvable", "replan"):
             ev.append((w[0],))
         elif part.startswith("exception:"):
@@ -69,6 +71,7 @@ def check(log, meta):
     plan = None
     cur_tick = 1                   # the tick being processed (events precede their `tick k` record)
     failed = set()
+    frozen, params = {}, {}
     last_now = (F(0), F(0))
     plan_at_tick = None
     want_plan = False
@@ -122,6 +125,15 @@ def check(log, meta):
             for a, p in plan.items():
                 if len(p) == 2 and p[1] < p[0]:
                     bad.append(f"adapted plan has {a} ending before it starts")
+        elif e[0] == "params":
+            # the boolean parameters of an atom are frozen when it starts
+            for k, v in e[1].items():
+                a = k.split(".")[0]
+                if a in started:
+                    if k in frozen and frozen[k] != v:
+                        bad.append(f"parameter {k} of the started atom {a} was {frozen[k]} when it started and is {v} in the adapted plan")
+                    frozen.setdefault(k, v)
+            params = e[1]
         elif e[0] == "tick":
             tick_no = e[1]
             if e[2] != (upt * tick_no, F(0)):
